@@ -186,7 +186,7 @@ package storage
 //@   ensures result == ic(n, cnt(n)-1).key
 
 //@ func (n *btreeNode) updateCell(key uint32, value []byte) error
-//@   props C01 C08 C14 C16
+//@   props C01 C08 C12 C14 C16
 //@   requires n.isLeaf && slotsOK(n) && sortedKeys(n) && identity(n)
 //@   modifies all(leafCell.valueBytes), all(leafCell.valueSize)
 //@   ensures[toolarge; C08 C14] len(value) > maxValue ==> result == ErrRowTooLarge
@@ -616,7 +616,12 @@ package storage
 //@ func (r *Tuple) Decode(buf *bytes.Buffer) error
 //@   props C08 C18
 //@   requires schemaOK(r.Relation) && r.Vals != nil && buf != nil
-//@   modifies mapof(r.Vals), bufver(buf), storeState
+//@   modifies mapof(r.Vals), bufver(buf), bufr(buf), storeState
+//@   ensures[content; C08] old(decodable(r, buf)) ==> result == nil && bufr(buf) == old(bufr(buf)) + atPos(len(r.Relation.Fields)) &&
+//@              (forall i int :: 0 <= i && i < len(r.Relation.Fields) ==> (atNull(i) ? colVal(r,i) == old(colVal(r,i)) : colIs(r,i)))
+//@   loop 1 invariant[content] old(decodable(r, buf)) ==> bufr(buf) == old(bufr(buf)) + atPos(rangeindex+1) &&
+//@              (forall i int :: 0 <= i && i <= rangeindex ==> (atNull(i) ? colVal(r,i) == old(colVal(r,i)) : colIs(r,i))) &&
+//@              (forall i int :: rangeindex < i && i < len(r.Relation.Fields) ==> colVal(r,i) == old(colVal(r,i)))
 
 //@ spec pred kindOK(t DataType) { t == TypeInt || t == TypeBigInt || t == TypeVarchar || t == TypeBoolean }
 //@ spec pred schemaOK(r *Relation) { r != nil && forall i int :: 0 <= i && i < len(r.Fields) ==> kindOK(r.Fields[i].DataType) }
@@ -625,6 +630,41 @@ package storage
 //@        (t == TypeBigInt ==> typeof(val) == typ(int64)) && (t == TypeVarchar ==> typeof(val) == typ(string)) && (t == TypeBoolean ==> typeof(val) == typ(bool)) }
 //@ axiom catalogSchemas: schemaOK(&pageTableSchema) && schemaOK(&schemaTableSchema)
 
+// "The abstract tuple": uninterpreted functions standing for an arbitrary row (kind, NULL flag and value per column); atPos(i) is the
+// position of column i in the encoding (prefix sum of the column sizes: 1 for NULL, else 1 + 4 / 8 / 1 / 4+len).
+//@ spec abstract atKind(i int) DataType
+//@ spec abstract atNull(i int) bool
+//@ spec abstract atInt(i int) int64
+//@ spec abstract atBool(i int) bool
+//@ spec abstract atStr(i int) string
+//@ spec abstract atPos(i int) int
+//@ spec func atSz(i int) int { atNull(i) ? 1 : (atKind(i) == TypeInt ? 5 : (atKind(i) == TypeBigInt ? 9 : (atKind(i) == TypeBoolean ? 2 : 5 + len(atStr(i))))) }
+//@ axiom atPos0: atPos(0) == 0
+//@ axiom atPosS: forall i int :: 0 <= i ==> atPos(i+1) == atPos(i) + atSz(i)
+//@ axiom atPosMono: forall i, j int :: 0 <= i && i < j ==> atPos(i) + atSz(i) <= atPos(j)
+//@ spec func le32s(b *bytes.Buffer, p int) int { le32(b,p) >= 2147483648 ? le32(b,p) - 4294967296 : le32(b,p) }
+//@ spec func le64s(b *bytes.Buffer, p int) int { le64(b,p) >= 9223372036854775808 ? le64(b,p) - 18446744073709551616 : le64(b,p) }
+//@ spec func colVal(r *Tuple, i int) any { r.Vals[r.Relation.Fields[i].Name] }
+//@ spec pred tupleIs(r *Tuple, n int) { forall i int :: 0 <= i && i < n ==> r.Relation.Fields[i].DataType == atKind(i) && ((colVal(r,i) == nil) <==> atNull(i)) &&
+//@        (!atNull(i) ==> ((atKind(i) == TypeInt || atKind(i) == TypeBigInt) ==> typeof(colVal(r,i)) == typ(int64) && colVal(r,i).(int64) == atInt(i)) &&
+//@                        (atKind(i) == TypeBoolean ==> typeof(colVal(r,i)) == typ(bool) && colVal(r,i).(bool) == atBool(i)) &&
+//@                        (atKind(i) == TypeVarchar ==> typeof(colVal(r,i)) == typ(string) && colVal(r,i).(string) == atStr(i))) }
+//@ spec pred tupleImage(b *bytes.Buffer, p int, n int) { forall i int :: 0 <= i && i < n ==> bufdata(b, p+atPos(i)) == (atNull(i) ? 1 : 0) &&
+//@        (!atNull(i) ==> (atKind(i) == TypeInt ==> le32s(b, p+atPos(i)+1) == atInt(i)) && (atKind(i) == TypeBigInt ==> le64s(b, p+atPos(i)+1) == atInt(i)) &&
+//@                        (atKind(i) == TypeBoolean ==> bufdata(b, p+atPos(i)+1) == (atBool(i) ? 1 : 0)) &&
+//@                        (atKind(i) == TypeVarchar ==> le32(b, p+atPos(i)+1) == len(atStr(i)) && (forall k int :: 0 <= k && k < len(atStr(i)) ==> bufdata(b, p+atPos(i)+5+k) == atStr(i)[k]))) }
+// What Decode needs to reproduce the abstract tuple: its image at the read position, enough unread bytes, the schema's kinds, distinct column names.
+//@ spec pred decodable(r *Tuple, b *bytes.Buffer) { tupleImage(b, bufr(b), len(r.Relation.Fields)) && bufw(b) - bufr(b) >= atPos(len(r.Relation.Fields)) &&
+//@        (forall i int :: 0 <= i && i < len(r.Relation.Fields) ==> r.Relation.Fields[i].DataType == atKind(i)) &&
+//@        (forall i, j int :: 0 <= i && i < j && j < len(r.Relation.Fields) ==> r.Relation.Fields[i].Name != r.Relation.Fields[j].Name) }
+// Column i of r holds the value of the abstract tuple (strings: same length and bytes).
+//@ spec pred colIs(r *Tuple, i int) {
+//@        ((atKind(i) == TypeInt || atKind(i) == TypeBigInt) ==> typeof(colVal(r,i)) == typ(int64) && colVal(r,i).(int64) == atInt(i)) &&
+//@        (atKind(i) == TypeBoolean ==> typeof(colVal(r,i)) == typ(bool) && colVal(r,i).(bool) == atBool(i)) &&
+//@        (atKind(i) == TypeVarchar ==> typeof(colVal(r,i)) == typ(string) && len(colVal(r,i).(string)) == len(atStr(i)) &&
+//@              (forall k int :: 0 <= k && k < len(atStr(i)) ==> colVal(r,i).(string)[k] == atStr(i)[k])) }
+//@ spec pred strsFit(n int) { forall i int :: 0 <= i && i < n ==> len(atStr(i)) <= 4294967295 }
+
 //@ func (r *Tuple) Encode() (*bytes.Buffer, error)
 //@   props C08 C14
 //@   requires schemaOK(r.Relation)
@@ -632,8 +672,12 @@ package storage
 //@   ensures[buf] result0 != nil && fresh(result0)
 //@   ensures[refuse; C08 C14] err == nil ==> forall i int :: 0 <= i && i < len(r.Relation.Fields) ==>
 //@              valueOK(r.Relation.Fields[i].DataType, r.Vals[r.Relation.Fields[i].Name])
-//@   loop 1 invariant buf != nil && fresh(buf)
+//@   ensures[image; C08] err == nil && old(tupleIs(r, len(r.Relation.Fields))) && strsFit(len(r.Relation.Fields)) ==>
+//@              bufr(result0) == 0 && bufw(result0) == atPos(len(r.Relation.Fields)) && tupleImage(result0, 0, len(r.Relation.Fields))
+//@   loop 1 invariant buf != nil && fresh(buf) && bufr(buf) == 0
 //@   loop 1 invariant forall i int :: 0 <= i && i <= rangeindex ==> valueOK(r.Relation.Fields[i].DataType, r.Vals[r.Relation.Fields[i].Name])
+//@   loop 1 invariant[image] old(tupleIs(r, len(r.Relation.Fields))) && strsFit(len(r.Relation.Fields)) ==>
+//@              bufw(buf) == atPos(rangeindex+1) && tupleImage(buf, 0, rangeindex+1)
 
 //@ func (b *BTree) scanRight(f func(kv *leafCell) (ScanAction, error)) error
 //@   props C01 C02 C11 C13
@@ -728,9 +772,8 @@ package storage
 
 //@ func (w *WALEntry) encode() (*bytes.Buffer, error)
 //@   props C02 C03
-//@   requires len(w.val) <= 4294967295
 //@   ensures[buf] err == nil && result0 != nil && fresh(result0)
-//@   ensures[image; C03] bufr(result0) == 0 && bufw(result0) == 25 + len(w.val) && walImage(w, result0, 0)
+//@   ensures[image; C03] len(w.val) <= 4294967295 ==> bufr(result0) == 0 && bufw(result0) == 25 + len(w.val) && walImage(w, result0, 0)
 
 //@ func (w *WALEntry) decode(buf *bytes.Buffer) error
 //@   props C02 C03
@@ -1125,3 +1168,13 @@ package storage
 //@ lemma[C12] rtInt: forall n, m *btreeNode :: intIs(n) && intIs(m) ==> sameInt(n, m)
 //@ lemma[C12] wfLeaf: forall n *btreeNode :: n.isLeaf && encodable(n) && leafIs(n) ==> alWF()
 //@ lemma[C12] wfInt: forall n *btreeNode :: !n.isLeaf && encodable(n) && intIs(n) ==> aiWF()
+
+// Tuple round trip: a tuple with the content of the abstract tuple, and a tuple decoded from its image into an empty map, agree column by column.
+//@ spec pred decodedAs(q *Tuple, n int) { forall i int :: 0 <= i && i < n ==> (atNull(i) ? colVal(q,i) == nil : colIs(q,i)) }
+//@ spec pred sameCols(r *Tuple, q *Tuple, n int) { forall i int :: 0 <= i && i < n ==> ((colVal(r,i) == nil) <==> (colVal(q,i) == nil)) &&
+//@        (colVal(r,i) != nil ==>
+//@           ((atKind(i) == TypeInt || atKind(i) == TypeBigInt) ==> typeof(colVal(q,i)) == typ(int64) && colVal(q,i).(int64) == colVal(r,i).(int64)) &&
+//@           (atKind(i) == TypeBoolean ==> typeof(colVal(q,i)) == typ(bool) && colVal(q,i).(bool) == colVal(r,i).(bool)) &&
+//@           (atKind(i) == TypeVarchar ==> typeof(colVal(q,i)) == typ(string) && len(colVal(q,i).(string)) == len(colVal(r,i).(string)) &&
+//@               (forall k int :: 0 <= k && k < len(colVal(r,i).(string)) ==> colVal(q,i).(string)[k] == colVal(r,i).(string)[k]))) }
+//@ lemma[C08] rtTuple: forall r, q *Tuple, n int :: tupleIs(r, n) && decodedAs(q, n) && (forall i int :: 0 <= i && i < n ==> kindOK(atKind(i))) ==> sameCols(r, q, n)
